@@ -221,7 +221,8 @@ def install(ctx, repo, probes):
         for b in R.MODES:
             if a != b:
                 ctx.target("switch/%s->%s" % (a, b))
-    ctx.target("cli/option", "cli/env", "cli/neither", "cli/both")
+    ctx.target("cli/option", "cli/env", "cli/neither", "cli/both",
+               "fresh-year/after-switch")
 
 
 def run_case(ctx, repo, case):
@@ -246,6 +247,36 @@ def run_case(ctx, repo, case):
                     prev = before
                     switched = True
                     ctx.cls("switch/%s->%s" % (before, after))
+                continue
+            if step[0] == "fresh":
+                # a year this process has probably never touched, so
+                # whatever is memoised for it is memoised under the current
+                # mode first; decided by the helper monitors (reference for
+                # the current mode) and here for the leap-day arithmetic
+                y = step[1]
+                cur = R.canon(repo.CALENDAR.mode)
+                ctx.ev("fresh-year.checked")
+                D = repo.data
+                D.get_days_in_year(y)
+                D.get_days_in_month(2, y)
+                D.get_weeks_in_year(y)
+                D.get_days_in_year_range(y - 1, y + 1)
+                try:
+                    p = repo.TimePoint(year=y, month_of_year=2,
+                                       day_of_month=28) + \
+                        repo.Duration(days=1)
+                    got = (p.month_of_year, p.day_of_month)
+                except ValueError as exc:
+                    got = "error:" + type(exc).__name__
+                want = (2, 29) if R.month_len(cur, y, 2) > 28 else (3, 1)
+                if got != want:
+                    ctx.violation("battery.fresh-year", "%d-02-28 + P1D "
+                                  "gives %r under %s (previous mode %s), the "
+                                  "mode's calendar says %r" % (
+                                      y, got, repo.CALENDAR.mode, prev, want),
+                                  year=y, mode=cur, prev=prev)
+                if switched:
+                    ctx.cls("fresh-year/after-switch")
                 continue
             if step[0] == "item":
                 name = step[1]
@@ -322,9 +353,13 @@ def workload(ctx, repo):
                 k += 1
                 if not ctx.mine(k):
                     continue
+                fresh = [rng.choice((4, 4, 100, 400, 1)) *
+                         rng.randint(-700, 2900) for _ in range(8)]
                 steps = [["set", rng.choice(spell_of[a])]]
+                steps += [["fresh", y] for y in fresh]
                 steps += [["item", n] for n in rng.sample(names, 12)]
                 steps += [["set", rng.choice(spell_of[b])]]
+                steps += [["fresh", y] for y in fresh]
                 order = list(names)
                 rng.shuffle(order)
                 steps += [["item", n] for n in order]
@@ -344,6 +379,12 @@ def workload(ctx, repo):
             v = rng.random()
             if v < 0.25:
                 steps.append(["set", rng.choice(SPELLS + (None, ""))])
+            elif v < 0.35:
+                steps.append(["fresh", 4 * rng.randint(-700, 2900)])
+                if rng.random() < 0.5:
+                    # the same year again a few steps later
+                    steps.append(["set", rng.choice(SPELLS)])
+                    steps.append(list(steps[-2]))
             elif v < 0.9:
                 steps.append(["item", rng.choice(names)])
             else:
